@@ -251,20 +251,23 @@ def format_case(draw):
     polys = [draw(polygon(min_caps=1, max_caps=1 if layout == 'one-cap' else 6)) for _ in range(npoly)]
     pts = draw(points_for(polys, nrand=8))
     return dict(layout=layout, polys=polys, points=pts, mode=draw(st.sampled_from(['xyz', 'radec'])),
-                captable=dict(order=list(draw(st.permutations(list(range(npoly))))), gaps=[draw(st.sampled_from([0, 0, 1, 3])) for _ in range(npoly)]))
+                captable=dict(order=list(draw(st.permutations(list(range(npoly))))), gaps=[draw(st.sampled_from([0, 0, 1, 3])) for _ in range(npoly)]),
+                ply_ids=draw(st.sampled_from([None, None, [2, 0, 1, 4, 3], [1207, 1207, 3045, 7, 7], [5, 4, 3, 2, 1]])))
 
 
-def write_ply(fn, polys):
+def write_ply(fn, polys, ids=None):
+    # the number after the word polygon is an identifier chosen by whoever wrote the file, not a position in it
     lines = ['%d polygons' % len(polys), 'pixelization 6s', 'snapped', 'balkanized']
     for i, p in enumerate(polys):
-        lines.append('polygon %d ( %d caps, 1 weight, 0 pixel, 1.0 str):' % (i, len(p['cm'])))
+        pid = i if not ids else ids[i % len(ids)]
+        lines.append('polygon %d ( %d caps, 1 weight, 0 pixel, 1.0 str):' % (pid, len(p['cm'])))
         for x, cm in zip(p['x'], p['cm']):
             lines.append(' %s %s %s %s' % tuple(repr(float(t)) for t in (x[0], x[1], x[2], cm)))
     with open(fn, 'w') as f:
         f.write('\n'.join(lines) + '\n')
 
 
-def write_fits(fn, polys, layout):
+def write_fits(fn, polys, layout, hibits=False):
     from astropy.io import fits
     n = len(polys)
     if layout == 'one-cap':
@@ -288,7 +291,9 @@ def write_fits(fn, polys, layout):
             fits.Column(name='WEIGHT', format='D', array=np.ones(n)),
             fits.Column(name='PIXEL', format='J', array=np.zeros(n, dtype='i4')),
             fits.Column(name='STR', format='D', array=np.ones(n)),
-            fits.Column(name='USE_CAPS', format='J', bzero=2 ** 31, array=np.array([p['use_caps'] for p in polys], dtype='u4'))]
+            # hibits: a writer that also sets the use-mask bits of the unused (padding) cap slots of a row, up to 31
+            fits.Column(name='USE_CAPS', format='J', bzero=2 ** 31,
+                        array=np.array([(p['use_caps'] | (((1 << 31) - 1) & ~((1 << len(p['cm'])) - 1))) if hibits else p['use_caps'] for p in polys], dtype='u4'))]
     fits.BinTableHDU.from_columns(cols).writeto(fn, overwrite=True)
 
 
@@ -356,9 +361,19 @@ def format_body(case):
             got = call(is_in_polygon, raw[i], arg, what='is_in_polygon(fits-record)')
             with judge('polygon:fits-record'):
                 compare_bool(got, poly_verdict(p, Pref), 'polygon:fits-record', lambda k: dict(polygon=p, point=case['points'][k], layout=case['layout']))
+        # rows whose use-mask also has bits set for cap slots beyond NCAPS (padding), asked with an ncaps= beyond NCAPS as well:
+        # only the polygon's own caps count
+        fh = os.path.join(d, 'poly_hi.fits')
+        write_fits(fh, polys, case['layout'], hibits=True)
+        rawh = call(read_fits_polygons, fh)
+        for i, p in enumerate(polys):
+            for nc in (0, len(p['cm']) + 1, 40):
+                got = call(is_in_polygon, rawh[i], arg, ncaps=nc, what='is_in_polygon(fits-record, padded use-mask)')
+                with judge('polygon:fits-record-padded-mask'):
+                    compare_bool(got, poly_verdict(p, Pref, nc), 'polygon:fits-record-padded-mask', lambda k: dict(polygon=p, point=case['points'][k], ncaps=nc))
         # formats without a use-mask
         pf = os.path.join(d, 'poly.ply')
-        write_ply(pf, polys)
+        write_ply(pf, polys, ids=case.get('ply_ids'))
         ply = call(read_mangle_polygons, pf)
         with judge('ply-read'):
             check(len(ply) == len(polys), 'ply:count')
